@@ -662,3 +662,51 @@ def join(u, other):
     else:
         merged = bp[:prims.last_index(bp, "/") + 1] + rp
     return U(scheme, u.netloc, _norm(merged), other.query, other.fragment)
+
+
+# ---------------------------------------------------------------- '/' and joinpath (C13)
+
+def make_child_requires(u, paths, encoded):
+    """the branch that normalises (an authority and a '.' in an appended text) runs
+    normalize_path_segments over the whole list including the root marker -- it is covered by the
+    bounded stand-in only (and holds the known finding KF-C13-child-root-pop); under an authority
+    the stored path is empty or rooted"""
+    if not netloc_ok(u):
+        return False
+    if u.netloc == "":
+        return True
+    if not (u.path == "" or u.path[:1] == "/"):
+        return False
+    ok = True
+    for i in range(len(paths)):
+        q = paths[i] if encoded else spec_parse.PATH_QUOTER(paths[i])
+        ok = ok and not ("." in q)
+    return ok
+
+
+def make_child(u, paths, encoded):
+    """C13: the segments of the path (without a trailing empty one), then the segments of every
+    appended text in order (an empty trailing segment is kept only for the last text; existing
+    empty segments inside are kept, none is created); texts are quoted once; a leading '/' in a text
+    is an error; under an authority the result is rooted; query and fragment are dropped"""
+    n = len(paths)
+    for i in range(n):
+        if paths[i][:1] == "/":
+            raise ValueError("Appending path starting from slash is forbidden")
+    have = False
+    text = ""
+    if u.path != "":
+        text = u.path[:-1] if u.path[-1:] == "/" else u.path
+        have = True
+    for i in range(n):
+        q = paths[i] if encoded else spec_parse.PATH_QUOTER(paths[i])
+        if i < n - 1 and q == "":
+            pass
+        else:
+            if i < n - 1 and q[-1:] == "/":
+                q = q[:-1]
+            text = (text + "/" + q) if have else q
+            have = True
+    if u.netloc != "" and have and not (text == "" or text[:1] == "/"):
+        text = "/" + text
+    return U(u.scheme, u.netloc, text, "", "")
